@@ -171,8 +171,8 @@ def stripe_oracle(streams, rec):
 
 def oracle(case, rec, an, streams, mb):
     viol, stats = stripe_oracle(streams, rec)
-    if case.get("forced"):
-        # rolling buffers tall enough: decided by the tag machine on the forced schedule
+    if case.get("forced") or stats.get("cascaded_stripes"):
+        # rolling buffers tall enough: decided by the tag machine on every schedule that has a cascade (forced or chosen)
         v3, s3 = c03.run_tag_machine(case, rec, an, streams)
         viol += [("rolling|" + k, w) for k, w in v3]
         stats["tag_bytes_checked"] = s3.get("bytes_checked", 0)
